@@ -118,8 +118,10 @@ def run(ctx, res):
         for ch in (choices if not ctx.quick() else choices[:3]):
             tasks.append((fmt, ch, (), rng.randrange(12)))
         for f in faults + HARNESS_FAULTS:
-            for ch in (rng.sample(choices, min(2, len(choices))) if ctx.quick() else choices):
-                tasks.append((fmt, ch, (f,), rng.randrange(12)))
+            # the algorithm-policy faults depend on which key type / curve / label the credential has: every choice, every run
+            every = not ctx.quick() or f.startswith("X.alg-")
+            for k, ch in enumerate(choices if every else rng.sample(choices, min(2, len(choices)))):
+                tasks.append((fmt, ch, (f,), k if f.startswith("X.alg-") else rng.randrange(12)))
         n = 12 if ctx.quick() else 150
         for _ in range(n):
             k = rng.randrange(2, 4)
